@@ -17,6 +17,8 @@ func init() { register("C07", checkC07) }
 var e7 = []string{"NewURLFromRaw", "NewSimpleURL", "NewURL", "NewParams"}
 
 func checkC07(p *Prog, r *Report) {
+	r.rule("C07.type-lookup: Schema.GetType / HasType find a type by one exact equality test between a type's Name and the requested name and call nothing else (the comparison AddType uses to keep names unique)")
+	checkTypeLookup(p, r, "C07")
 	r.rule(r3RuleText)
 	r.rule("R11 splice loops: " + "after X = append(X[:a], X[b:]...) inside a loop over the removed index, the loop must leave, count downwards, or continue at an index <= a (so the element that moved down is examined)")
 	r.rule("R8b prefix pruning: strings.HasPrefix between two items of a list whose items are later split on a delimiter must test the shorter item followed by that delimiter")
